@@ -188,6 +188,9 @@ Proof. exact PoolSrcProofs.queue_cap_zero_still_pooled. Qed.
 Theorem C19_handlers_submit_by_blocking_send : tcp_submit_is_blocking_send = true /\ udp_submit_is_blocking_send = true.
 Proof. exact PoolSrcProofs.handlers_submit_by_blocking_send. Qed.
 
+Theorem C19_listen_builds_the_pool_once : src_tcp_Listen = modelled_tcp_Listen /\ src_udp_Listen = modelled_udp_Listen.
+Proof. exact PoolSrcProofs.listen_builds_the_pool_once. Qed.
+
 (* ---------- the pool inside tcpHandler (Conc/PoolUse.v): accept loop, connection goroutines, recvDone, numInvoke, Shutdown ---------- *)
 (* the statement order read off the source: Add before go, Wait before Release, numInvoke counted at hand-over *)
 Theorem C19_source_statement_order : source_flags = good_flags.
@@ -264,3 +267,4 @@ Print Assumptions C19_release_before_wait_refuted.
 Print Assumptions C19_count_at_start_refuted.
 Print Assumptions C19_release_after_every_started_job_finished.
 Print Assumptions C19_worker_registration_never_blocks.
+Print Assumptions C19_listen_builds_the_pool_once.
